@@ -44,9 +44,24 @@ JProvider(r) ==
         drift |-> IF (r.some <=> entries # {}) /\ ToSetOfSeqs(r.got) = want THEN <<>> ELSE <<"provider_lookup_differs">>,
         skip |-> FALSE, nt |-> r.idx = 0 \/ r.idx >= n - 1]
 
+\* spelling corruption in artificial mode without a character file: as many edit_word calls as the word has characters
+\* (edit probability 1) or between one and that many, deletions and swaps of letters only, every call with the exclusion
+\* set the previous one returned: the output is reachable by such a chain (Exact is the set of results of one call)
+RECURSIVE ReachK(_, _, _)
+ReachK(S, k, tb) == IF k = 0 THEN S ELSE ReachK(UNION {Exact(x[1], x[2], {"d", "s"}, tb) : x \in S}, k - 1, tb)
+JSpell(r) ==
+    LET tb == [ins |-> {}, rep |-> {}, del |-> {r.case.del[k] : k \in 1..Len(r.case.del)}, swp |-> {r.case.del[k] : k \in 1..Len(r.case.del)},
+               fullDelete |-> r.full]
+        n == Len(r.w)
+        ends(k) == {x[1] : x \in ReachK({<<r.w, {}>>}, k, tb)}
+        possible == IF r.pone THEN ends(n) ELSE UNION {ends(k) : k \in 1..n}
+    IN [why |-> IF r.out \in possible THEN <<>> ELSE <<"spelling_corruption_chains_edits_with_the_returned_exclusions">>,
+        drift |-> <<>>, skip |-> FALSE, nt |-> n >= 2]
+
 Judge(r) ==
     IF r.st # "ok" THEN [why |-> <<r.st>>, drift |-> <<>>, skip |-> FALSE, nt |-> TRUE]
     ELSE IF DupCtx(r.tb) \/ \E k \in 1..Len(r.w) : r.w[k] = 0 THEN [why |-> <<>>, drift |-> <<>>, skip |-> TRUE, nt |-> FALSE]
+    ELSE IF r.kind = "spell" THEN JSpell(r)
     ELSE IF r.kind = "edit" THEN JEdit(r) ELSE JProvider(r)
 
 INSTANCE Stepper
